@@ -406,7 +406,7 @@ def unit_test(cname, hist, op, expected, observed):
 def canon_cases():
     """Canonical ordering: every class that declares priority names x every insertion order of <=4 of 8 keys."""
     for cname, cls in (("Event", Event), ("Calendar", Calendar), ("Timezone", Timezone), ("vRecur", vRecur),
-                       ("Todo", Todo), ("CaselessDict", CaselessDict)):
+                       ("Todo", Todo), ("CaselessDict", CaselessDict), ("EventList", EventList), ("EventDup", EventDup), ("EventNone", EventNone)):
         co = list(cls.canonical_order or ())
         pri = (co[:1] + co[2:3] + co[-1:])[:3]
         names = [p.lower() for p in pri[:2]] + [p for p in pri[2:]] + ["x-z", "A-first", "attendee", "Zz", "m"]
@@ -416,8 +416,21 @@ def canon_cases():
                 yield ("canon", cname, combo)
 
 
+class EventList(Event):          # an application's own priority names, held in a LIST
+    canonical_order = ["UID", "SUMMARY", "DTSTART"]
+
+
+class EventDup(Event):           # "UID first": the inherited tuple already names UID, so it is declared twice
+    canonical_order = ("UID",) + tuple(Event.canonical_order)
+
+
+class EventNone(Event):
+    canonical_order = ()
+
+
 _CLS = {"Event": Event, "Calendar": Calendar, "Timezone": Timezone, "vRecur": vRecur, "Todo": Todo,
-        "CaselessDict": CaselessDict}
+        "CaselessDict": CaselessDict, "EventList": EventList, "EventDup": EventDup, "EventNone": EventNone}
+_DECLARED = {k: (list(v.canonical_order) if v.canonical_order is not None else None) for k, v in _CLS.items()}
 
 
 def run_canon(case):
@@ -426,15 +439,36 @@ def run_canon(case):
     d = cls()
     for i, k in enumerate(combo):
         d[k] = i
-    want = canonsort([fold(k) for k in combo], cls.canonical_order)
+    declared = _DECLARED[cname]
+    once = [k for k in (declared or ()) if (declared or ()).count(k) == 1]
+    want = canonsort([fold(k) for k in combo], once)
     got = d.sorted_keys()
     fails = []
-    if got != want:
+    dup = set(declared or ()) - set(once)
+    if dup & {fold(k) for k in combo}:
+        # a name declared twice has no single declared position: the result is still each stored name once, priority names
+        # before all others, the once-declared ones among them in declared order, the others alphabetical
+        keys = {fold(k) for k in combo}
+        head = [k for k in got if k in set(declared)]
+        ok = sorted(got) == sorted(keys) and got[:len(head)] == head and got[len(head):] == sorted(keys - set(declared)) and \
+            [k for k in head if k in once] == [k for k in once if k in keys]
+        if not ok:
+            fails.append({"cls": "canonical-order:name-declared-twice", "case": case, "expected": "each key once, priority names first, rest alphabetical", "observed": got})
+        want = got
+    elif got != want:
         fails.append({"cls": "canonical-order", "case": case, "expected": want, "observed": got})
     got_items = d.sorted_items()
     if [k for k, _ in got_items] != want:
         fails.append({"cls": "canonical-order-items", "case": case, "expected": want, "observed": got_items})
-    pri = set(cls.canonical_order or ())
+    try:
+        d.to_ical()
+    except Exception:  # noqa: BLE001 - values are plain ints; serialising is only asked for its side effects here
+        pass
+    now = list(cls.canonical_order) if cls.canonical_order is not None else None
+    if now != declared or (d.sorted_keys() != got):
+        fails.append({"cls": "canonical-order:declaration-changed-by-use", "case": case, "expected": declared, "observed": now})
+        cls.canonical_order = type(cls.canonical_order)(declared)
+    pri = set(declared or ())
     nt = len({fold(k) for k in combo} & pri) >= 1 and len({fold(k) for k in combo} - pri) >= 1
     return {"state": (cname, tuple(got)), "trans": 2, "nontrivial": nt, "outcome": "ok" if not fails else "FAIL",
             "fails": fails}
